@@ -33,6 +33,11 @@ CHECKS['C05'] = ('4.C05', 'Rules of the must / raise / try_catch families (retur
                  'position within [start of attempt, furthest point], byte/line/column consistency, unchanged propagation, exact conversion with cursor restore. Not claimed: parse_error '
                  'message/what() formatting and std::throw_with_nested (libstdc++ string/stream internals cannot be encoded).')
 
+CHECKS['C13'] = ('4.C13', 'For grammars with the state<> rule and rules whose action class derives from change_state(s) / change_action / change_action_and_state / change_control / '
+                 'enable_action / disable_action (plus action<> / control<> rules), the complete log of state construction, the state instance and action class every action sees, the control that sees '
+                 'the hooks, success() (exactly once, iff matched [and actions enabled for the action-based variants], with the cursor after the match and the outer state) and destruction is proved '
+                 'equal to the reference protocol over symbolic sub-rules, including failure, exceptions and the rules following the scope.')
+
 NOT_YET = {}
 
 
